@@ -21,6 +21,9 @@ META = {
     "assumptions": ["finite floats as reals", "objective is a deterministic function (uninterpreted value per call)"],
 }
 
+from engine import monitor as _monitor          # noqa: E402
+META["audit"] = lambda: _monitor.audit(('H1',))
+
 LISTS_Q = [("C",), ("D3",), ("P3",), ("CM2",), ("B2",), ("DM2",), ("MO2",), ("C", "D3"), ("P3", "C"), ("D3", "P3"),
            ("CM1", "B1"), ("DM1", "C")]
 
